@@ -18,14 +18,46 @@ theorem choose_eq_spec (status : Nat) (reqHeaders : List Header) (ver : Version)
     (len : Option Nat) (thr : Nat) (te : List (Bytes × Q))
     (hs : 100 ≤ status) (hte : Spec.teList reqHeaders = some te) :
     chooseTransferEncoding status reqHeaders ver len thr = some (Spec.choice ver status te len thr) := by
-  sorry
+  have hguard : (ver.le ⟨Extracted.identityOnlyVersion.1, Extracted.identityOnlyVersion.2⟩ = true
+      ∨ Extracted.teExcludedStatus status = true) ↔
+      (ver.le ⟨1, 0⟩ = true ∨ (100 ≤ status ∧ status ≤ 199) ∨ status = 204) := by
+    simp only [Extracted.identityOnlyVersion, Extracted.teExcludedStatus, Bool.or_eq_true,
+      decide_eq_true_eq, beq_iff_eq]
+    have hst : (status < 200 ∨ status = 204) ↔ ((100 ≤ status ∧ status ≤ 199) ∨ status = 204) := by
+      omega
+    rw [hst]
+  unfold chooseTransferEncoding Spec.choice
+  rw [teRequest_of_teList hte]
+  by_cases hv : ver.le ⟨Extracted.identityOnlyVersion.1, Extracted.identityOnlyVersion.2⟩ = true
+  · rw [if_pos hv, if_pos (hguard.1 (Or.inl hv))]
+  · rw [if_neg hv]
+    by_cases hx : Extracted.teExcludedStatus status = true
+    · rw [if_pos hx, if_pos (hguard.1 (Or.inr hx))]
+    · rw [if_neg hx, if_neg (fun h => (hguard.2 h).elim hv hx)]
+      cases Spec.bestOf (Spec.admissible te) with
+      | some y => rfl
+      | none =>
+        cases len with
+        | none => rfl
+        | some l =>
+          simp only [Option.map_none, Extracted.thresholdReached, decide_eq_true_eq]
+          split <;> rfl
 
 /-- chunked is never chosen for HTTP/1.0 or older, nor for 1xx/204 — whatever TE says. -/
 theorem never_chunked_for_old_or_nobody (status : Nat) (reqHeaders : List Header) (ver : Version)
     (len : Option Nat) (thr : Nat)
     (h : ver.le ⟨1, 0⟩ = true ∨ status < 200 ∨ status = 204) :
     chooseTransferEncoding status reqHeaders ver len thr = some .identity := by
-  sorry
+  unfold chooseTransferEncoding
+  by_cases hv : ver.le ⟨Extracted.identityOnlyVersion.1, Extracted.identityOnlyVersion.2⟩ = true
+  · rw [if_pos hv]
+  · rw [if_neg hv]
+    have hx : Extracted.teExcludedStatus status = true := by
+      rcases h with h | h | h
+      · exact absurd h hv
+      · simp [Extracted.teExcludedStatus, h]
+      · simp [Extracted.teExcludedStatus, h]
+    rw [if_pos hx]
 
 /-- Framing headers of the printed header list: identity ⇒ exactly one Content-Length carrying
     the decimal body length and no Transfer-Encoding; chunked ⇒ `Transfer-Encoding: chunked`
@@ -40,7 +72,11 @@ theorem framing_headers (r : Resp) (c : ReqCtx) (date : Bytes) (bodyLen : Nat)
        | none => Spec.Framed.neither
        | some .chunked => Spec.Framed.chunked
        | some .identity => Spec.Framed.identity (toDec (r.dataLength.getD bodyLen))) := by
-  sorry
+  rw [framedOf_append_clean _ (insertAuto_clean date c.upgrade hclean)]
+  rcases framing_cases hf with h | h | ⟨h, hl⟩
+  · subst h; exact framedOf_none len
+  · subst h; exact framedOf_chunked len
+  · subst h; subst hl; exact framedOf_identity _
 
 /-- non-vacuity: a concrete TE header on which the TE branch decides. -/
 example : chooseTransferEncoding 200 [⟨b!"TE", b!"identity;q=0.5, chunked;q=0.8"⟩] ⟨1, 1⟩ (some 5) 32768
